@@ -7,18 +7,80 @@ import (
 type RemoveIntersections struct {
 	objectsToRemove map[string]ast.Object
 	arraysToFix     map[string]ast.Object
+
+	// what took the place of the objects removed so far, by `package.name`:
+	// the name of another object of the same package, or an array type.
+	renamed  map[string]string
+	asArrays map[string]ast.Type
 }
 
 func (r RemoveIntersections) Process(schemas []*ast.Schema) ([]*ast.Schema, error) {
 	r.objectsToRemove = make(map[string]ast.Object)
 	r.arraysToFix = make(map[string]ast.Object)
+	r.renamed = make(map[string]string)
+	r.asArrays = make(map[string]ast.Type)
 	visitor := Visitor{
 		OnSchema: r.processSchema,
 		OnObject: r.processObject,
 		OnStruct: r.processStruct,
 	}
 
-	return visitor.VisitSchemas(schemas)
+	schemas, err := visitor.VisitSchemas(schemas)
+	if err != nil {
+		return nil, err
+	}
+
+	if len(r.renamed) == 0 && len(r.asArrays) == 0 {
+		return schemas, nil
+	}
+
+	// struct fields were handled above, but the removed objects can be
+	// referred to from anywhere: arrays, maps, disjunctions, other packages, ...
+	return r.rewriteReferences(schemas)
+}
+
+func (r RemoveIntersections) rewriteReferences(schemas []*ast.Schema) ([]*ast.Schema, error) {
+	refsVisitor := &Visitor{
+		OnRef: func(_ *Visitor, _ *ast.Schema, def ast.Type) (ast.Type, error) {
+			// an alias of an array was removed: what referred to it becomes that array, like struct fields do
+			if array, ok := r.asArrays[def.Ref.String()]; ok {
+				replacement := array.DeepCopy()
+				replacement.Nullable = def.Nullable
+				replacement.Default = def.Default
+				return replacement, nil
+			}
+
+			def.Ref.ReferredType = r.replacementFor(def.Ref.ReferredPkg, def.Ref.ReferredType)
+			return def, nil
+		},
+		OnStruct: func(visitor *Visitor, visitedSchema *ast.Schema, def ast.Type) (ast.Type, error) {
+			var err error
+			for i, field := range def.Struct.Fields {
+				def.Struct.Fields[i], err = visitor.VisitStructField(visitedSchema, field)
+				if err != nil {
+					return ast.Type{}, err
+				}
+			}
+
+			// structs generated from a disjunction keep it as a hint
+			if disjunction, ok := def.Hints[ast.HintDiscriminatedDisjunctionOfRefs].(ast.DisjunctionType); ok {
+				disjunction = disjunction.DeepCopy()
+				for i, branch := range disjunction.Branches {
+					if branch.IsRef() {
+						disjunction.Branches[i].Ref.ReferredType = r.replacementFor(branch.Ref.ReferredPkg, branch.Ref.ReferredType)
+					}
+				}
+				for discriminator, typeName := range disjunction.DiscriminatorMapping {
+					disjunction.DiscriminatorMapping[discriminator] = r.replacementFor(visitedSchema.Package, typeName)
+				}
+				def.Hints[ast.HintDiscriminatedDisjunctionOfRefs] = disjunction
+			}
+
+			return def, nil
+		},
+	}
+
+	return refsVisitor.VisitSchemas(schemas)
 }
 
 func (r RemoveIntersections) processSchema(v *Visitor, schema *ast.Schema) (*ast.Schema, error) {
@@ -49,60 +111,30 @@ func (r RemoveIntersections) processSchema(v *Visitor, schema *ast.Schema) (*ast
 		return nil, foundErr
 	}
 
-	for toRemove := range r.objectsToRemove {
+	for toRemove, replacement := range r.objectsToRemove {
+		// objects are recorded by bare name: only those of this package are meant
+		if !schema.Objects.Has(toRemove) || replacement.SelfRef.ReferredPkg != schema.Package {
+			continue
+		}
+
 		schema.Objects.Remove(toRemove)
+
+		removedRef := ast.RefType{ReferredPkg: schema.Package, ReferredType: toRemove}.String()
+		if array, isArrayAlias := r.arraysToFix[toRemove]; isArrayAlias {
+			r.asArrays[removedRef] = ast.NewArray(array.Type.AsArray().ValueType)
+		} else {
+			r.renamed[removedRef] = replacement.SelfRef.ReferredType
+		}
 	}
 
-	if len(r.objectsToRemove) == 0 {
-		return schema, nil
-	}
-
-	// struct fields were handled above, but the removed objects can be
-	// referred to from anywhere: arrays, maps, disjunctions, ...
-	refsVisitor := &Visitor{
-		OnRef: func(_ *Visitor, _ *ast.Schema, def ast.Type) (ast.Type, error) {
-			def.Ref.ReferredType = r.replacementFor(schema, def.Ref.ReferredPkg, def.Ref.ReferredType)
-			return def, nil
-		},
-		OnStruct: func(visitor *Visitor, visitedSchema *ast.Schema, def ast.Type) (ast.Type, error) {
-			var err error
-			for i, field := range def.Struct.Fields {
-				def.Struct.Fields[i], err = visitor.VisitStructField(visitedSchema, field)
-				if err != nil {
-					return ast.Type{}, err
-				}
-			}
-
-			// structs generated from a disjunction keep it as a hint
-			if disjunction, ok := def.Hints[ast.HintDiscriminatedDisjunctionOfRefs].(ast.DisjunctionType); ok {
-				disjunction = disjunction.DeepCopy()
-				for i, branch := range disjunction.Branches {
-					if branch.IsRef() {
-						disjunction.Branches[i].Ref.ReferredType = r.replacementFor(schema, branch.Ref.ReferredPkg, branch.Ref.ReferredType)
-					}
-				}
-				for discriminator, typeName := range disjunction.DiscriminatorMapping {
-					disjunction.DiscriminatorMapping[discriminator] = r.replacementFor(schema, schema.Package, typeName)
-				}
-				def.Hints[ast.HintDiscriminatedDisjunctionOfRefs] = disjunction
-			}
-
-			return def, nil
-		},
-	}
-
-	return refsVisitor.VisitSchema(schema)
+	return schema, nil
 }
 
 // replacementFor returns the name of the object that took the place of a
 // removed object, or the name itself when the object wasn't removed.
-func (r RemoveIntersections) replacementFor(schema *ast.Schema, pkg string, name string) string {
-	if pkg != schema.Package {
-		return name
-	}
-
-	if replacement, removed := r.objectsToRemove[name]; removed && !schema.Objects.Has(name) {
-		return replacement.SelfRef.ReferredType
+func (r RemoveIntersections) replacementFor(pkg string, name string) string {
+	if replacement, removed := r.renamed[ast.RefType{ReferredPkg: pkg, ReferredType: name}.String()]; removed {
+		return replacement
 	}
 
 	return name
